@@ -2,7 +2,7 @@
 import z3
 
 from . import ty as T
-from .ty import V, INT, BOOL, BYTES, STR
+from .ty import V, INT, BOOL, BYTES, STR, ANY
 from .engine import UF, u_fn, p_fn, CODE_BY_NAME, PyObj
 
 I = z3.IntSort()
@@ -87,6 +87,22 @@ def install(eng):
             a = T.coerce(args[0], T.opt(BYTES))
             return V(ret_ty, UF(name, OB, ret_sort)(a.t))
         return f
+    def _dkey(eng, args, kwargs, fr, node):
+        d, i = args
+        return V(d.ty[1], T.dict_keys(d)[eng.num(i).t])
+
+    def _dval(eng, args, kwargs, fr, node):
+        d, i = args
+        return V(d.ty[2], z3.Select(T.dict_map(d), T.dict_keys(d)[eng.num(i).t]))
+
+    def _grouped(eng, args, kwargs, fr, node):
+        xs = args[0]
+        ety = xs.ty[1]
+        dty = ('dict', STR, ('dict', INT, ety))
+        return V(dty, UF('grouped_' + T.mangle(ety), T.sort_of(xs.ty), T.sort_of(dty))(xs.t))
+    bn['dkey'] = PyObj('builtin', _dkey)
+    bn['dval'] = PyObj('builtin', _dval)
+    bn['grouped'] = PyObj('builtin', _grouped)
     bn['gunzip'] = PyObj('builtin', _ob('gunzip', T.BytesSort, BYTES))
     bn['gzip_ok'] = PyObj('builtin', _ob('gzip_ok', z3.BoolSort(), BOOL))
     bn['unsnappy'] = PyObj('builtin', _ob('unsnappy', T.BytesSort, BYTES))
